@@ -76,7 +76,7 @@ def _format_column(col, max_preview: int | None = None) -> List[str]:
 	# Truncate with symmetric preview
 	vals = col._underlying
 	if len(vals) > max_preview * 2:
-		preview = list(vals[:max_preview]) + ['...'] + list(vals[-max_preview:])
+		preview = list(vals[:max_preview]) + ['...'] + list(vals[len(vals) - max_preview:])
 	else:
 		preview = list(vals)
 
